@@ -122,7 +122,7 @@ class Prop:
             return
         evs = case["evs"]
         # drop TUN / MTU / roam events (handshake, shift, expire and down/up events carry the session structure)
-        free = [i for i, e in enumerate(evs) if e["k"] in ("tun", "tunf", "mtu", "roam", "replayinit")]
+        free = [i for i, e in enumerate(evs) if e["k"] in ("tun", "tunf", "mtu", "roam", "replayinit", "conf")]
         chunk = max(len(free) // 2, 1)
         cnt = 0
         while chunk >= 1 and cnt < 60:
@@ -164,6 +164,9 @@ class Prop:
 
         pos = (case.get("_pos") or {}).get(str(f.get("kind")), f.get("pos", 0))
         k = evs[pos]["k"] if pos < len(evs) else "?"
+        if pos < len(evs) and any(e["k"] == "conf" for e in evs[:pos + 1]) and any(
+                o["ep"] >= 97 or (k == "conf") for o in evs[pos].get("obs") or []):
+            return "datagram-follows-an-endpoint-line-of-the-devices-own-key-section"
         if pos < len(evs) and k == "replayinit" and evs[pos].get("obs"):
             return "replayed-latest-initiation-answered:endpoint-moves-to-the-replayer"
         if pos < len(evs):
